@@ -62,11 +62,13 @@ def tysOk (ss : Schemas) (cur : String) : List Ty → Bool
 end
 
 /-- what `__init__` prints for the field is well formed: the parameter default is a literal, the
-    right-hand side of the assignment parses -/
+    right-hand side of the assignment parses and the sibling modules it names exist -/
 def fieldInitOk (cfg : Cfg) (ss : Schemas) (cur : String) (f : Field) : Bool :=
   (match (initField cfg ss cur f).1 with | some p => evalOk ss p.dflt | none => true)
     && (match (initField cfg ss cur f).2 with
-        | .assign _ e => synOk e | .assignOr _ e => synOk e | .assignParam _ => true)
+        | .assign _ e => synOk e && (exprAliases e).all (aliasOk ss)
+        | .assignOr _ e => synOk e && (exprAliases e).all (aliasOk ss)
+        | .assignParam _ => true)
 
 def fieldPrintable (cfg : Cfg) (ss : Schemas) (cur : String) (f : Field) : Bool :=
   f.comments.all lineOk && tyOk ss cur f.ty && (unmodelledField f).isNone && fieldInitOk cfg ss cur f
